@@ -98,6 +98,7 @@ type ObjectSpec struct {
 	Mode     string // "sequential": no interference at lock acquisition (properties over call histories)
 	Volatile []string
 	Bounded  []string // counters assumed not to overflow (|x| < 2^62 at lock acquisition)
+	Owns     []string // pointer fields whose target objects are used only while this object's lock is held
 }
 
 // Lemma is a pure formula proved once.
@@ -410,6 +411,11 @@ func ParseSpecFile(path, pkgPath string, ps *PkgSpec) error {
 			curO.Locals = true
 		case "mode":
 			curO.Mode = rest
+		case "owns":
+			if curO == nil {
+				return fail(l.n, "owns outside object block")
+			}
+			curO.Owns = append(curO.Owns, strings.Fields(strings.ReplaceAll(rest, ",", " "))...)
 		case "bounded":
 			if curO == nil {
 				return fail(l.n, "bounded outside object block")
